@@ -532,7 +532,7 @@ def basin_graph_cases(seed, count, max_side, tag, high_degree=0):
         yield flow_case("%s-bowls-%d-%d" % (tag, seed, i), g, steps, timeout_ms=30000)
 
 
-def inject_cases(graphs, seed, tag, per_case=10, big=0):
+def inject_cases(graphs, seed, tag, per_case=10, big=0, kthr=(1, 2, 3), kmin=(0, 1)):
     """B1 for the Orders / Sweeps models: every graph TLC enumerated (receiver lists + flow partition) is
     installed in a real flow graph by a user-defined router written against the library's extension point,
     the library's own traversal-order algorithms run on it, and accumulate / basins / kernels / a graph
@@ -600,9 +600,11 @@ def inject_cases(graphs, seed, tag, per_case=10, big=0):
                 ex += [dict(op="acc", g=k, src=s, K=0 if single else 16) for s in srcs]
                 if single:
                     ex.append(dict(op="basins", g=k))
-                ex.append(dict(op="kernel", g=k, dir="breadth", thr=rng.choice([1, 2, 3]), minblock=rng.choice([0, 1]),
+                ex.append(dict(op="kernel", g=k, dir="breadth", thr=rng.choice(kthr), minblock=rng.choice(kmin),
                                minlevel=rng.choice([0, 2]), init=rng.choice([0, 1])))
                 ex.append(dict(op="kernel", g=k, dir=rng.choice(["any", "depth"]), thr=1))
+                if len(kthr) > 3:
+                    ex.append(dict(op="kernel", g=k, dir="any", thr=rng.choice(kthr), minblock=rng.choice(kmin), minlevel=0, init=rng.choice([0, 1])))
                 if style == "snap":
                     ex.append(dict(op="snap", g=k, name="s"))
                     ex.append(dict(op="acc", g=k, snap="s", src=srcs[0], K=0 if single else 16))
